@@ -10,9 +10,18 @@ import (
 // kcp-go. Datagrams written to an address are queued at the PacketConn registered under
 // that address in the same PacketNet.
 type PacketNet struct {
-	mu    sync.Mutex
-	conns map[string]*MemPacketConn
-	Drop  func(from, to string, n int) bool // optional loss model (unused by value-only oracles)
+	mu      sync.Mutex
+	conns   map[string]*MemPacketConn
+	Drop    func(from, to string, n int) bool // optional loss model (unused by value-only oracles)
+	Capture bool
+	cap     []byte
+}
+
+// Captured returns every datagram payload that crossed the network so far, concatenated.
+func (n *PacketNet) Captured() []byte {
+	n.mu.Lock()
+	defer n.mu.Unlock()
+	return append([]byte{}, n.cap...)
 }
 
 func NewPacketNet() *PacketNet { return &PacketNet{conns: map[string]*MemPacketConn{}} }
@@ -72,6 +81,9 @@ func (c *MemPacketConn) WriteTo(p []byte, a net.Addr) (int, error) {
 	}
 	c.net.mu.Lock()
 	dst := c.net.conns[a.String()]
+	if c.net.Capture {
+		c.net.cap = append(c.net.cap, p...)
+	}
 	c.net.mu.Unlock()
 	if dst == nil {
 		return len(p), nil // nobody there: datagram lost
